@@ -42,6 +42,7 @@ inductive Ex where
   | lenPm                    -- len(pm)
   | psParams                 -- ps(params)
   | tab                      -- the tab stop of the enclosing loop over vt.tabStop
+  | param0                   -- `param[0]` of the enclosing `for _, param := range params`
   deriving DecidableEq, Repr, Inhabited
 
 inductive Cmp where
@@ -67,6 +68,7 @@ inductive Bnd where
 /-- Other modelled functions a body may call. -/
 inductive Fn where
   | cuu | cud | ind | nel | ri | lf | cht | scrollUp | scrollDown
+  | decsc | decrc | ed | setDefaultTabStops
   deriving DecidableEq, Repr, Inhabited
 
 /-- Two statements of print() about the character sets, recognised as a whole (their source text
@@ -87,6 +89,27 @@ inductive Prim where
   | savePen
   /-- resize(): `vt.cursor.Style = pen` -/
   | restorePen
+  /-- `vt.activeScreen = vt.altScreen` -/
+  | activeAlt
+  /-- decsc(): `state := cursorState{cursor: vt.cursor, decawm: vt.mode.decawm, decom: vt.mode.decom, charsets: charsets{selected, saved,
+      designations: map{g0..g3: vt.charsets.designations[..]}}}` (source text fixed in the translator) -/
+  | stateCapture
+  /-- `vt.altState = state` / `vt.primaryState = state` -/
+  | stateStoreAlt | stateStorePrimary
+  /-- decrc(): `var state cursorState` -/
+  | stateZero
+  /-- `state = vt.altState` / `state = vt.primaryState` -/
+  | stateLoadAlt | stateLoadPrimary
+  /-- `vt.cursor = state.cursor` -/
+  | cursorFromState
+  /-- `vt.charsets = charsets{selected: state.charsets.selected, saved: …, designations: map{g0..g3: state.charsets.designations[..]}}` -/
+  | charsetsFromState
+  /-- `vt.mode.decawm = state.decawm` / `vt.mode.decom = state.decom` -/
+  | decawmFromState | decomFromState
+  /-- ris(): `vt.charsets = charsets{selected: 0, saved: 0, designations: map{g0..g3: ascii}}` -/
+  | charsetsReset
+  /-- ris(): `vt.mode = mode{decawm: true, dectcem: true}` -/
+  | modeReset
   deriving DecidableEq, Repr, Inhabited
 
 inductive Stmt where
@@ -142,6 +165,14 @@ inductive Stmt where
   | tabsClear
   /-- `vt.tabStop = append(vt.tabStop, vt.cursor.col)` -/
   | tabsPushCol
+  /-- setDefaultTabStops(): `for i := first; i < limit; i += step { vt.tabStop = append(vt.tabStop, column(i)) }` (constants folded) -/
+  | tabsAppendRange (first limit step : Nat)
+  /-- `vt.mode.f = true` / `= false` -/
+  | setMode (f : ModeField) (b : Bool)
+  /-- `for _, param := range params { body }` (`param[0]` is `Ex.param0`) -/
+  | forParams (body : Stmt)
+  /-- `fmt.Fprintf(vt.pty, …)`: a reply to the child; no effect on the emulator state -/
+  | reply
   /-- `ch := vt.activeScreen[r][c]` (a copy of the cell, held in the frame) -/
   | loadCell (r c : Ex)
   /-- `vt.activeScreen[r][c].Character = ch.Character` -/
